@@ -1,5 +1,6 @@
 import GqlProofs.Grammar.Sound
 import GqlProofs.Grammar.Reject
+import GqlProofs.Grammar.PrintQuery
 /-
   C05 — the query parser accepts exactly the executable grammar, faithfully.
 
@@ -9,7 +10,7 @@ import GqlProofs.Grammar.Reject
   the real parser is the check `C05` (harness/internal/props/grammarcheck.go): verdict and
   unparse equation against these definitions, input by input.
 -/
-open Gql Gql.Lexer Gql.Grammar
+open Gql Gql.Lexer Gql.Grammar Gql.Print
 
 /-! ### the recogniser is sound: a `1` from `gq` is a derivation -/
 
@@ -99,6 +100,53 @@ theorem C05_reject_classes_string_token_as_keyword (t : Tok) (rest out : List To
   obtain ⟨rfl, rfl⟩ := hp
   rfl
 
+/-! ### the unparser stays inside the grammar -/
+
+/-- The print of every well-formed tree (`Print.WFQuery`: at least one definition, operation
+    types `query`/`mutation`/`subscription`, non-empty required selection sets, no fragment
+    named `on`, no variable in default values and in directives of variable definitions) is a
+    sentence of `ExecutableDocument`.  So the unparse equation of the check compares the input
+    with a sentence of the grammar, never with something the grammar does not know. -/
+theorem C05_print_in_grammar (d : QueryDoc) (h : WFQuery d) :
+    Derivable gql .executableDocument (printQuery d) :=
+  printQuery_in_grammar d h
+
+/-- non-vacuity: `query Q($v: Int = 1 @c) @d { a: b(x: $v) { ...F ... on T { c } } } fragment F on T { c }` is well-formed -/
+example : WFQuery
+    { ops := [{ op := str "query", name := str "Q",
+                vars := [{ var := str "v", type := .named (str "Int") false Pos.zero,
+                           default := some (.mk .int (str "1") .nil Pos.zero),
+                           dirs := [{ name := str "c", args := [], pos := Pos.zero }], pos := Pos.zero }],
+                dirs := [{ name := str "d", args := [], pos := Pos.zero }],
+                sel := .cons (.field (str "a") (str "b")
+                        [{ name := str "x", value := .mk .variable (str "v") .nil Pos.zero, pos := Pos.zero }] []
+                        (.cons (.spread (str "F") [] Pos.zero)
+                          (.cons (.inline (str "T") [] (.cons (.field (str "c") (str "c") [] [] .nil Pos.zero) .nil) Pos.zero) .nil))
+                        Pos.zero) .nil,
+                pos := Pos.zero }],
+      frags := [{ name := str "F", vars := [], typeCond := str "T", dirs := [],
+                  sel := .cons (.field (str "c") (str "c") [] [] .nil Pos.zero) .nil, pos := Pos.zero }] } := by
+  refine ⟨Or.inl (by simp), ?_, ?_⟩
+  · intro o ho
+    simp only [List.mem_singleton] at ho
+    subst ho
+    refine ⟨Or.inl rfl, ?_, by simp, ?_⟩
+    · intro v hv
+      simp only [List.mem_singleton] at hv
+      subst hv
+      refine ⟨?_, ?_⟩
+      · intro d hd
+        simp only [Option.some.injEq] at hd
+        subst hd
+        simp [ConstValue, ConstChildren]
+      · intro d hd; simp only [List.mem_singleton] at hd; subst hd; intro a ha; simp at ha
+    · simp [WFSelections, WFSelection]; decide
+  · intro f hf
+    simp only [List.mem_singleton] at hf
+    subst hf
+    refine ⟨by decide, by simp, by simp, by simp [WFSelections, WFSelection]⟩
+
+#print axioms C05_print_in_grammar
 #print axioms C05_recognise_sound
 #print axioms C05_canonical_sound
 #print axioms C05_reject_classes_empty_document
